@@ -227,3 +227,49 @@ package atree
 //@   modifies m.childrenHeaders, m.header, ghost.sto, ghost.stored, ghost.touched, alloc,
 //@        as(l, *MapDataSlab).elements, as(l, *MapDataSlab).header, as(r, *MapDataSlab).elements, as(r, *MapDataSlab).header, hkeyElements.*@inSub(l), hkeyElements.*@inSub(r),
 //@        as(l, *MapMetaDataSlab).childrenHeaders, as(l, *MapMetaDataSlab).header, as(r, *MapMetaDataSlab).childrenHeaders, as(r, *MapMetaDataSlab).header
+
+//@ func (m *MapMetaDataSlab) mergeChildren(storage, l, r, li, ri) (err)  serves C02 C03 C05 C06 C09
+//@   requires storage != nil && wfMM0(m) && mLinked(m) && 0 <= li && ri == li + 1 && ri < len(m.childrenHeaders)
+//@   requires isMapSlab(l) && isMapSlab(r) && sameKindM(l, r) && l == sto[m.childrenHeaders[li].slabID] && r == sto[m.childrenHeaders[ri].slabID] && mNodeWF(l) && mNodeWF(r)
+//@   requires is(l, *MapMetaDataSlab) ==> as(l, *MapMetaDataSlab).childrenHeaders[len(as(l, *MapMetaDataSlab).childrenHeaders) - 1].firstKey < as(r, *MapMetaDataSlab).childrenHeaders[0].firstKey
+//@   requires mhdrOf(l) == m.childrenHeaders[li] && mhdrOf(r) == m.childrenHeaders[ri]
+//@   requires minThreshold + ite(is(l, *MapDataSlab), 26, 12) <= mhdrOf(l).size + mhdrOf(r).size && mhdrOf(l).size + mhdrOf(r).size - ite(is(l, *MapDataSlab), 26, 12) <= maxThreshold
+//@   ensures err != nil ==> categorised(err)
+//@   ensures[C06] err == nil ==> wfMM0(m) && m.header.slabID == old(m.header.slabID) && m.header.size == old(m.header.size) - 18
+//@   ensures[C02] err == nil ==> len(m.childrenHeaders) == len(old(m.childrenHeaders)) - 1 &&
+//@        (forall k :: 0 <= k && k < li ==> m.childrenHeaders[k] == old(m.childrenHeaders)[k]) &&
+//@        (forall k :: li < k && k < len(m.childrenHeaders) ==> m.childrenHeaders[k] == old(m.childrenHeaders)[k + 1]) &&
+//@        m.childrenHeaders[li].firstKey == old(m.childrenHeaders)[li].firstKey && m.childrenHeaders[li].slabID == old(m.childrenHeaders)[li].slabID
+//@   ensures[C05] err == nil ==> mhdrBand(m.childrenHeaders[li])
+//@   ensures[C09] err == nil ==> sto[old(m.childrenHeaders)[ri].slabID] == nil && sto[m.header.slabID] == m && mDistinct(m)
+//@   ensures[C09] err == nil ==> mAgree(m)
+//@   ensures[C02 C03] err == nil ==> has(stored, m) && has(stored, l)
+//@   ensures[C09] forall id SlabID :: id != old(m.header.slabID) && id != old(m.childrenHeaders)[li].slabID && id != old(m.childrenHeaders)[ri].slabID ==> sto[id] == old(sto[id])
+//@   modifies m.childrenHeaders, m.header, ghost.sto, ghost.stored, ghost.touched, alloc,
+//@        as(l, *MapDataSlab).elements, as(l, *MapDataSlab).header, as(l, *MapDataSlab).next, hkeyElements.*@inSub(l), singleElements.*@inSub(l),
+//@        as(l, *MapMetaDataSlab).childrenHeaders, as(l, *MapMetaDataSlab).header
+
+//@ pred mSibReady(m *MapMetaDataSlab, k int, child MapSlab) = isMapSlab(sto[m.childrenHeaders[k].slabID]) && sameKindM(sto[m.childrenHeaders[k].slabID], child) &&
+//@      mNodeWF(sto[m.childrenHeaders[k].slabID]) && mhdrBand(m.childrenHeaders[k]) && sto[m.childrenHeaders[k].slabID] != child &&
+//@      inSub(m, sto[m.childrenHeaders[k].slabID]) && !inSub(sto[m.childrenHeaders[k].slabID], m)
+
+//@ # key ranges of adjacent index-slab children do not overlap (needed only when two index-slab children are merged or rebalanced)
+//@ pred mAdjOrdered(x MapSlab, y MapSlab) = is(x, *MapMetaDataSlab) && is(y, *MapMetaDataSlab) ==>
+//@      as(x, *MapMetaDataSlab).childrenHeaders[len(as(x, *MapMetaDataSlab).childrenHeaders) - 1].firstKey < as(y, *MapMetaDataSlab).childrenHeaders[0].firstKey
+
+//@ func (m *MapMetaDataSlab) MergeOrRebalanceChildSlab(storage, child, chi, underflowSize) (err)  serves C02 C03 C05 C06 C09
+//@   requires storage != nil && wfMM0(m) && mLinked(m) && 0 <= chi && chi < len(m.childrenHeaders) && len(m.childrenHeaders) >= 2
+//@   requires isMapSlab(child) && child == sto[m.childrenHeaders[chi].slabID] && mNodeWF(child) && inSub(m, child)
+//@   requires mhdrOf(child).size < minThreshold && mhdrOf(child).size >= ite(is(child, *MapDataSlab), 26, 12) && underflowSize == minThreshold - mhdrOf(child).size
+//@   assume (chi > 0 ==> mSibReady(m, chi - 1, child) && mAdjOrdered(sto[m.childrenHeaders[chi - 1].slabID], child)) &&
+//@        (chi < len(m.childrenHeaders) - 1 ==> mSibReady(m, chi + 1, child) && mAdjOrdered(child, sto[m.childrenHeaders[chi + 1].slabID]))
+//@        because "tree invariant (composition): the siblings of the child are well-formed, in band, of the same level, with disjoint ascending key ranges"
+//@   ensures err != nil ==> categorised(err)
+//@   ensures[C06] err == nil ==> wfMM0(m) && m.header.slabID == old(m.header.slabID)
+//@   ensures[C02] err == nil ==> (len(m.childrenHeaders) == len(old(m.childrenHeaders)) || len(m.childrenHeaders) == len(old(m.childrenHeaders)) - 1)
+//@   ensures[C05] err == nil ==> (forall k :: 0 <= k && k < len(m.childrenHeaders) && (forall j :: 0 <= j && j < len(old(m.childrenHeaders)) && j != chi ==> mhdrBand(old(m.childrenHeaders)[j])) ==> mhdrBand(m.childrenHeaders[k]))
+//@   ensures[C09] err == nil ==> sto[m.header.slabID] == m && mDistinct(m)
+//@   ensures[C09] err == nil ==> mAgree(m)
+//@   ensures[C02 C03] err == nil ==> has(stored, m)
+//@   modifies MapMetaDataSlab.childrenHeaders@inSub(m), MapMetaDataSlab.header@inSub(m), MapDataSlab.elements@inSub(m), MapDataSlab.header@inSub(m), MapDataSlab.next@inSub(m),
+//@        hkeyElements.*@inSub(m), singleElements.*@inSub(m), ghost.sto, ghost.stored, ghost.touched, alloc
